@@ -36,14 +36,16 @@ Fixpoint span (p : N -> bool) (l : list N) : list N * list N :=
 Definition nonempty {A} (l : list A) : bool := match l with [] => false | _ => true end.
 
 (* ([eE][-+]?dig+)? : the exponent is taken only when at least one digit follows *)
+Definition split_sign (r1 : list N) : list N * list N :=
+  match r1 with
+  | s :: r2' => if is_sign s then ([s], r2') else ([], r1)
+  | [] => ([], r1)
+  end.
 Definition scan_exp (r : list N) : list N * list N :=
   match r with
   | e :: r1 =>
       if is_e e then
-        let '(sg, r2) := match r1 with
-                         | s :: r2' => if is_sign s then ([s], r2') else ([], r1)
-                         | [] => ([], r1)
-                         end in
+        let '(sg, r2) := split_sign r1 in
         let '(ds, r3) := span is_dig r2 in
         if nonempty ds then (e :: sg ++ ds, r3) else ([], r)
       else ([], r)
@@ -51,18 +53,23 @@ Definition scan_exp (r : list N) : list N * list N :=
   end.
 
 (* longest prefix matching `numeric`, if any *)
-Definition scan_numeric (bs : list N) : option (list N * list N) :=
-  let '(d1, r1) := span is_dig bs in
+(* digits d1 already read, r1 follows: no decimal point taken *)
+Definition scan_nodot (d1 r1 : list N) : option (list N * list N) :=
+  if nonempty d1 then let '(ex, r4) := scan_exp r1 in Some (d1 ++ ex, r4) else None.
+(* digits d1 and a "." already read, r2 follows *)
+Definition scan_dot (d1 r2 : list N) : option (list N * list N) :=
+  let '(d2, r3) := span is_dig r2 in
+  if nonempty d2 then
+    let '(ex, r4) := scan_exp r3 in Some (d1 ++ 46 :: d2 ++ ex, r4)
+  else if nonempty d1 then Some (d1 ++ [46], r2)
+  else None.
+Definition scan_tail (d1 r1 : list N) : option (list N * list N) :=
   match r1 with
-  | 46 :: r2 =>
-      let '(d2, r3) := span is_dig r2 in
-      if nonempty d2 then
-        let '(ex, r4) := scan_exp r3 in Some (d1 ++ 46 :: d2 ++ ex, r4)
-      else if nonempty d1 then Some (d1 ++ [46], r2)
-      else None
-  | _ =>
-      if nonempty d1 then let '(ex, r4) := scan_exp r1 in Some (d1 ++ ex, r4) else None
+  | c :: r2 => if c =? 46 then scan_dot d1 r2 else scan_nodot d1 r1
+  | [] => scan_nodot d1 r1
   end.
+Definition scan_numeric (bs : list N) : option (list N * list N) :=
+  let '(d1, r1) := span is_dig bs in scan_tail d1 r1.
 
 Definition piecewise_bytes : list N := Eval compute in b "Piecewise".
 
